@@ -83,15 +83,22 @@ def compare_dir(chk: Check, site: driver.Site, sel: bytes, ctx: str, abstract_en
         # documented: over HTTP(S) the waptop path is the WAP view of the site, not this directory
         views = [v for v in VIEWS if v not in ("http", "https")]
     for view in views:
-        ents, resp, v = listing(chk, site, view, sel)
+        vsel = sel
+        if reqs.VIEWS[view][0] in ("gopher", "gopherp") and not reqs.gopher_expressible(sel):
+            # a Gopher request field is trimmed of white space, so the Gopher family cannot name a directory whose
+            # name ends in a blank (stated by the properties, see reqs.gopher_expressible); it can name it with the
+            # trailing slash, which must show the same directory as the URL-based views show for either form
+            vsel = sel + b"/"
+            chk.count("gopher_family_views_of_names_ending_in_white_space")
+        ents, resp, v = listing(chk, site, view, vsel)
         if ents is None:
             chk.witness("C06/listing-failed:%s" % reqs.VIEWS[view][0],
-                        {"view": view, "selector": sel, "ctx": ctx, "reply_head": resp.data[:120], "reason": v.reason,
+                        {"view": view, "selector": vsel, "ctx": ctx, "reply_head": resp.data[:120], "reason": v.reason,
                          "log": resp.log[:2], "escaped": resp.escaped[:1]})
             return
         per_view[view] = (ents, validate.normalize_ts(resp.data))
         # trailing slash must not change the answer
-        if sel != b"/":
+        if sel != b"/" and vsel == sel:
             req2, tls2 = reqs.render(view, sel + b"/")
             r2 = site.request(req2, tls=tls2)
             if validate.normalize_ts(r2.data) != per_view[view][1]:
@@ -148,7 +155,15 @@ def mime_views(chk: Check, site: driver.Site, o: sites.Obj, ctx: str) -> None:
     for view in ("http", "https", "gemini", "spartan", "gopherp!"):
         if view in ("http", "https") and (o.selector == b"/wap" or o.selector.startswith(b"/wap/")):
             continue
-        req, tls = reqs.render(view, o.selector)
+        vsel = o.selector
+        if reqs.VIEWS[view][0] == "gopherp" and not reqs.gopher_expressible(vsel):
+            # outside the quantifier: the Gopher family cannot name an object whose name ends in white space (request
+            # fields are trimmed), except a directory through its trailing-slash form
+            chk.count("gopher_family_views_of_names_ending_in_white_space")
+            if o.kind != "menu":
+                continue
+            vsel += b"/"
+        req, tls = reqs.render(view, vsel)
         resp = site.request(req, tls=tls)
         v = validate.validate(resp, req)
         if not v.ok or v.klass == "error":
@@ -330,7 +345,9 @@ def main() -> int:
              "size bucket) / (mime, tags) / (target, query class)",
         assumptions=["names compared for Gemini/Spartan after the documented backslashreplace of non-UTF-8 bytes",
                      "remote targets compared as (host, port, type, selector)", "display names compared with TAB read as a blank",
-                     "search strings contain no TAB/CR/LF/NUL and no leading/trailing blanks"])
+                     "search strings contain no TAB/CR/LF/NUL and no leading/trailing blanks",
+                     "a name ending in white space is not requested through the Gopher family (request fields are trimmed) "
+                     "except a directory through its trailing-slash form; URL-based views are compared in both forms"])
 
 
 if __name__ == "__main__":
